@@ -266,12 +266,31 @@ def evaluate(case):
                     a2.filter_frequencies(lib, force_real=fr)
                     b2.filter_frequencies(resp[other][0], force_real=fr)
                     got = np.array((a2 + b2).values)
+                    # filtering the sum afterwards is the sum's business: the right-hand summand stays what it was
+                    keep_b = np.array(b1.values)
+                    tot = a2 + b2
+                    tot.filter_frequencies(lib, force_real=fr)
+                    _ = np.array(tot.values)
+                    b_after = np.array(b2.values)
+                    # the same response applied twice is the response squared, for a function-backed signal as for a sampled one
+                    twice = mk(exts["ramp"])
+                    twice.filter_frequencies(lib, force_real=fr)
+                    twice.filter_frequencies(lib, force_real=fr)
+                    got_twice = np.array(twice.values)
+                    exp_twice, _ = dft.filtered_reference(exts["ramp"], dt, lambda f_, ref=ref: ref(f_) ** 2, fr, use_fft=2 * m > 160)
                 except Exception as e:
                     from ..engine import src
                     fails.append(_f("exception", case, rname, "function:sum", "sum of filtered FunctionSignals raised " + src.short_tb(e)))
                     continue
                 neval += 1
                 tol = 1e-11 * max(1.0, float(np.max(np.abs(exts["ramp"])))) * max(1.0, maxabs)
+                if not np.array_equal(b_after, keep_b):
+                    fails.append(_f("function-signal-sum-operand", case, rname, "function:sum",
+                                    "filtering (x + y) changed y: %s... before, %s... after" % (keep_b[:4].tolist(), b_after[:4].tolist())))
+                if other == "unit" and (got_twice.shape != (n,) or not np.max(np.abs(got_twice - exp_twice[nb:nb + n])) <= tol * max(1.0, maxabs)):
+                    fails.append(_f("function-signal-twice", case, rname, "function:sum",
+                                    "a FunctionSignal filtered twice with the same response: %s..., the response squared gives %s..."
+                                    % (got_twice[:4].tolist() if got_twice.shape == (n,) else got_twice.shape, exp_twice[nb:nb + 4].tolist())))
                 if got.shape != want.shape or not np.max(np.abs(got - want)) <= tol:
                     fails.append(_f("function-signal-sum", case, rname, "function:sum",
                                     "(x filtered with %s) + (y filtered with %s) evaluates to %s..., the two summands evaluated separately "
